@@ -12,7 +12,7 @@ import (
 func init() {
 	register(&propDef{
 		ID:       "C16",
-		Explain:  "Decided for connection.Manager (structural necessary conditions): conns and ref are accessed only under Manager.mu; c/err are written only in dial before the deferred close(ready) and read in Connection only after a receive from ready; Connection joins-or-creates inside one critical section (lookup, create+store+exactly one `go dial` on the not-found edge only, ref++ on both edges, all before the wait), every path that counted a reference waits for ready or undoes the count, a cancelled context returns before touching the map; dial's failure path removes the entry and publishes the error under the lock, the success path does not remove; a failed request returns an empty release function; the release function is once-guarded per holder, decrements ref by 1 under the lock and removes iff the counter test is true at 0 and false at 1; ClientConn.Close is called only from remove, remove only from dial and the release body, and remove forgets the entry on every path on which it closes; in manager.monitor the release function is deferred on every path after a successful dial, before subscribe. Round-4 addition: every call of a Dial function value is made by dial or synchronously below it, never on a goroutine dial does not wait for. Round-5 additions: a connection the dialer produced is published or closed on every path (never dropped by a later decision to fail the attempt); every holder in the module releases or hands on the release function of each successful request before asking again; lookup key = store key = entry id = what dial is started with for its own remove; remove may leave the map untouched only on the path on which the lookup reported no such entry.",
+		Explain:  "Decided for connection.Manager (structural necessary conditions): conns and ref are accessed only under Manager.mu; c/err are written only in dial before the deferred close(ready) and read in Connection only after a receive from ready; Connection joins-or-creates inside one critical section (lookup, create+store+exactly one `go dial` on the not-found edge only, ref++ on both edges, all before the wait), every path that counted a reference waits for ready or undoes the count, a cancelled context returns before touching the map; dial's failure path removes the entry and publishes the error under the lock, the success path does not remove; a failed request returns an empty release function; the release function is once-guarded per holder, decrements ref by 1 under the lock and removes iff the counter test is true at 0 and false at 1; ClientConn.Close is called only from remove, remove only from dial and the release body, and remove forgets the entry on every path on which it closes; in manager.monitor the release function is deferred on every path after a successful dial, before subscribe. Round-4 addition: every call of a Dial function value is made by dial or synchronously below it, never on a goroutine dial does not wait for. Round-5 additions: a connection the dialer produced is published or closed on every path (never dropped by a later decision to fail the attempt); every holder in the module releases or hands on the release function of each successful request before asking again; lookup key = store key = entry id = what dial is started with for its own remove; remove may leave the map untouched only on the path on which the lookup reported no such entry. Round-7 addition: every context handed on inside package connection is the function's own context parameter or derived from it by WithTimeout/Deadline/Cancel/Value.",
 		NotCover: "use-after-close by holders outside the module; behaviour of grpc.ClientConn itself; fairness of the mutex",
 		Run:      runC16,
 	})
@@ -49,6 +49,7 @@ func runC16(c *Ctx) {
 	c.Rule("C16.release", "done allocates a fresh sync.Once per call and the returned function only calls once.Do(body); body: under m.mu, ref = ref-1, remove(c.id) iff the test on ref is true at 0 and false at 1")
 	c.Rule("C16.close-owner", "(*grpc.ClientConn).Close is called only in Manager.remove; remove is called only from dial and the release body; every path of remove deletes the map entry and closes at most once")
 	c.Rule("C16.mgr-pairing", "manager.monitor: after createConn succeeds the release function is deferred before subscribe is called; on failure it returns without subscribing")
+	ctxFlow(c, "C16.dial-ctx")
 
 	// ---- locked
 	la := NewLockAudit(c, "connection", map[*types.Var]*types.Var{fConns: fMu, fRef: fMu}, 2, fRef)
